@@ -342,6 +342,13 @@ func (c *Ctx) Response(rich bool) *Response {
 				cs.Headers = map[string]*Header{}
 			}
 			cname := c.CompName("Hc", "hcomp")
+			// people name a shared header after the header itself (ETag: $ref .../headers/ETag)
+			// (with a dash-free header name: a dash in a component name is known finding C01-F08)
+			if rapid.IntRange(0, 2).Draw(t, "hcomp_named_like_header") == 0 {
+				name = c.PlainName("Etag", "hname")
+				cname = name
+				c.Tag("rheader:component-named-like-header")
+			}
 			cs.Headers[cname] = h
 			c.Tag("rheader:component")
 			h = &Header{Ref: RefHeaders + cname}
